@@ -161,5 +161,37 @@ def gen_program(rng, nmax, depth=None, xs=None):
                 continue
         except (ValueError, ZeroDivisionError, OverflowError, FloatingPointError):
             continue
-        return tree, x, d
+        return tree, x, with_noise(tree, x, d)
     raise RuntimeError('could not generate a program')
+
+
+class Derivs(list):
+    """the exact derivatives [f(x), f'(x), ..] (extended-precision oracle, rounded to doubles); `.noise[k]` is how far the
+    double-precision evaluation of the same expression is from them (the rounding noise of f and its derivatives at x: a double-
+    precision differentiator of this expression cannot be asked for more), the largest of three neighbouring points"""
+    noise = None
+    cond = None        # running rounding-error bounds of the double evaluation (jets.derivatives_conditioned)
+
+
+def with_noise(tree, x, d):
+    from harness.oracle.jets import derivatives_extended
+    try:
+        de, nz = derivatives_extended(tree, x, len(d) - 1)
+        if not all(math.isfinite(v) for v in de):
+            raise ValueError
+        for xn in (x * (1 + 2.0 ** -30), x * (1 - 2.0 ** -30)):
+            _d2, n2 = derivatives_extended(tree, xn, len(d) - 1)
+            nz = [max(a, b) if math.isfinite(b) else a for a, b in zip(nz, n2)]
+        out = Derivs(de)
+        out.noise = [v if math.isfinite(v) else 0.0 for v in nz]
+        try:
+            from harness.oracle.jets import derivatives_conditioned
+            cd = derivatives_conditioned(tree, x, len(d) - 1)
+            out.cond = [v if math.isfinite(v) else 0.0 for v in cd]
+        except Exception:
+            out.cond = [0.0] * len(d)
+    except Exception:
+        out = Derivs(d)
+        out.noise = [0.0] * len(d)
+        out.cond = [0.0] * len(d)
+    return out
